@@ -1334,3 +1334,6 @@ RULES = [
     ("C03.PARAMLIVE", 49, rule_paramlive),
     ("C03.EMPTYSAFE", 23, rule_emptysafe),
 ]
+
+from . import common as _common_purity
+RULES = RULES + _common_purity.purity_rules("C03")
